@@ -248,7 +248,7 @@ def histories(draw):
     is_int = draw(st.integers(0, 2)) > 0
     lat = lattice(style)
     lab = st.sampled_from(["a", "b", "c", "", "x y"])
-    ins_lab = st.sampled_from(["a", "b", "c", "", "x y", " a", "b ", " x y\n"])  # stored trimmed, like every label
+    ins_lab = st.sampled_from(["a", "b", "c", "", "x y", " a", "b ", " x y\n", "{noise}", "{}", "a{", "%s"])  # stored trimmed, like every label
     n0 = draw(st.integers(0, 5))
     if is_int:
         bs = sorted(draw(st.lists(lat, min_size=2 * n0, max_size=2 * n0, unique=True)))
@@ -262,7 +262,7 @@ def histories(draw):
         for e in ents:
             if not ents2 or e[0] >= ents2[-1][1]:
                 ents2.append(e)
-        spec = {"type": "interval", "name": "t", "entries": ents2, "minT": min([e[0] for e in ents2] + [draw(st.sampled_from([0.0, 0.0, 2.0]))]),
+        spec = {"type": "interval", "name": draw(st.sampled_from(["t", "t", "{t}", "100%"])), "entries": ents2, "minT": min([e[0] for e in ents2] + [draw(st.sampled_from([0.0, 0.0, 2.0]))]),
                 "maxT": max([e[1] for e in ents2] + [draw(st.sampled_from([1.0, 3.0]))]), "style": style}
     else:
         ts = sorted(draw(st.lists(lat, min_size=n0, max_size=n0, unique=True)))
